@@ -91,6 +91,18 @@ def script_operator_pairs(kind, rng, nv=4):
             o = rng.choice(allops)
             ops.append(f"{o} h{k} h{a} h{b}"); round1.append((o, [a, b])); k += 1
             ops.append(f"NAND h{k} h{nota} h{a}"); round1.append(("NAND", [nota, a])); drop.append(k); k += 1  # = true
+        # restrict with the literal cube given as a kept HANDLE (for ZBDDs the cube denotes another
+        # partial assignment once a variable has been added: the new variable is a negative literal)
+        for a in rng.sample(range(pool), 3):
+            v1, v2 = rng.sample(range(nv), 2)
+            c1 = k
+            ops.append(f"VAR h{k} {v1}"); k += 1
+            ops.append(f"RESTRICTH h{k} h{a} h{c1}"); round1.append(("RESTRICTH", [a, c1])); k += 1
+            lit = k
+            ops.append(f"{rng.choice(['VAR', 'NVAR'])} h{k} {v2}"); k += 1
+            c2 = k
+            ops.append(f"AND h{k} h{c1} h{lit}"); k += 1
+            ops.append(f"RESTRICTH h{k} h{a} h{c2}"); round1.append(("RESTRICTH", [a, c2])); k += 1
         ops.append("SNAP")
         for d in drop:
             ops.append(f"DROP h{d}")
@@ -110,6 +122,12 @@ def gen_scripts(ctx):
     rng = random.Random(ctx.seed * 7919 + 6)
     thorough = ctx.tier == "thorough"
     scripts = []
+    # regression (fixed in /repo f8637cd): a memoised ZBDD restrict result served again after add_vars
+    for kind in ("zbdd", "bdd", "bcdd"):
+        scripts.append((kind, False, ["VARS 2", "VAR h0 0", "VAR h1 1", "RESTRICTH h2 h0 h1", "SNAP", "VARS 1",
+                                      "RESTRICTH h3 h0 h1", "EVAL h3", "SNAP", "GC", "RESTRICTH h4 h0 h1", "SNAP"]))
+        scripts.append((kind, False, ["VARS 4", "TT h5 4 bf3f", "VAR h8 2", "NVAR h9 1", "AND h10 h8 h9", "RESTRICTH h11 h5 h10",
+                                      "SNAP", "VARS 2", "RESTRICTH h12 h5 h10", "SNAP"]))
     for kind in ("bdd", "bcdd", "zbdd", "mtbdd"):
         for _ in range(12 if thorough else 2):
             scripts.append((kind, False, script_operator_pairs(kind, rng)))
